@@ -197,14 +197,14 @@ def run_model(lines, timeout=3600):
 HOOK_RUSTFLAGS = "--cfg bindgen_verif"
 
 def ensure_repo_link():
-    """harness/.repo -> the tree under verification (VERIF_REPO, default /repo)."""
-    link = os.path.join(HARNESS, ".repo")
-    want = os.path.realpath(REPO)
-    if os.path.islink(link) and os.path.realpath(link) == want:
-        return
-    if os.path.lexists(link):
-        os.remove(link)
-    os.symlink(want, link)
+    """Point the harness' path dependency at the tree under verification (VERIF_REPO, default /repo)."""
+    import re as _re
+    man = os.path.join(HARNESS, "Cargo.toml")
+    text = open(man).read()
+    want = 'bindgen = { path = "%s/bindgen", features = ["__cli"] }' % os.path.realpath(REPO)
+    new = _re.sub(r'bindgen = \{ path = "[^"]*", features = \["__cli"\] \}', want, text)
+    if new != text:
+        open(man, "w").write(new)
 
 
 def cargo_build_harness(bins=None, timeout=3600):
